@@ -313,3 +313,130 @@ Proof.
   - apply COPY in H; [|left; reflexivity]. destruct H as (A & B & C). split; [auto|]. split; [|auto].
     intros E. specialize (B E). discriminate.
 Qed.
+
+Lemma frx_kinv c s s' : frx c s s' -> kinv c (proj s) -> kinv c (proj s').
+Proof. intros (A & _) K. eapply creach_kinv; eauto. Qed.
+
+(** what FindMissing establishes for a digest that it examines in state sm *)
+Definition fm_present (w : world) (sm : state) (o i : nat) : Prop :=
+  exists T, placed w sm o i T /\ kfresh (proj sm) T.
+
+Lemma fm_phase2_spec w : forall todo s missing m s',
+  kinv (w_cfg w) (proj s) ->
+  fm_phase2 w s todo missing = (Ok m, s') ->
+  frx (w_cfg w) s s' /\ incl missing m /\
+  (forall pos, In pos m -> In pos missing \/
+      exists o i sm, In (pos, (o, i)) todo /\ frx (w_cfg w) s sm /\ frx (w_cfg w) sm s' /\
+                     least_specific sm (lookup_keys w o i) = None) /\
+  (forall pos o i, In (pos, (o, i)) todo -> In pos m \/
+      exists sm, frx (w_cfg w) s sm /\ frx (w_cfg w) sm s' /\ fm_present w sm o i /\
+                 ((length todo <= 1)%nat -> sm = s')).
+Proof.
+  induction todo as [|[pos0 [o0 i0]] t IH]; intros s missing m s' K H; cbn [fm_phase2] in H.
+  - inversion H; subst. split; [apply frx_refl|]. split; [apply incl_refl|]. split; [auto|]. intros ? ? ? [].
+  - destruct (fm_refresh_one w s o0 i0) as [r1 s1] eqn:E1.
+    apply fm_refresh_one_spec in E1; [|exact K]. destruct E1 as (F1 & HM & HP).
+    pose proof (frx_kinv _ _ _ F1 K) as K1.
+    destruct r1 as [[|]|e]; [| |discriminate].
+    + pose proof H as H0. apply IH in H; [|exact K1]. destruct H as (F2 & IM & A & B).
+      split; [eapply frx_trans; eauto|]. split; [exact IM|]. split.
+      * intros pos Hp. destruct (A pos Hp) as [X|(o & i & sm & X1 & X2 & X3 & X4)]; [auto|].
+        right. exists o, i, sm. split; [right; auto|]. split; [eapply frx_trans; eauto|auto].
+      * intros pos o i [E|Hin].
+        -- inversion E; subst. right. exists s1. split; [auto|]. split; [auto|]. split; [apply HP; reflexivity|].
+           intros L. cbn in L. destruct t; [|cbn in L; lia]. cbn in H0. inversion H0; reflexivity.
+        -- destruct (B pos o i Hin) as [X|(sm & X1 & X2 & X3 & X4)]; [auto|].
+           right. exists sm. split; [eapply frx_trans; eauto|]. split; [auto|]. split; [auto|].
+           intros L. cbn in L. destruct t; [destruct Hin|cbn in L; lia].
+    + apply IH in H; [|exact K1]. destruct H as (F2 & IM & A & B).
+      split; [eapply frx_trans; eauto|]. split; [intros x Hx; apply IM, in_or_app; auto|]. split.
+      * intros pos Hp. destruct (A pos Hp) as [X|(o & i & sm & X1 & X2 & X3 & X4)].
+        -- apply in_app_or in X. destruct X as [X|[X|[]]]; [auto|]. subst pos.
+           right. exists o0, i0, s. split; [left; reflexivity|]. split; [apply frx_refl|].
+           split; [eapply frx_trans; eauto|apply HM; reflexivity].
+        -- right. exists o, i, sm. split; [right; auto|]. split; [eapply frx_trans; eauto|auto].
+      * intros pos o i [E|Hin].
+        -- inversion E; subst. left. apply IM, in_or_app. right. left. reflexivity.
+        -- destruct (B pos o i Hin) as [X|(sm & X1 & X2 & X3 & X4)]; [auto|].
+           right. exists sm. split; [eapply frx_trans; eauto|]. split; [auto|]. split; [auto|].
+           intros L. cbn in L. destruct t; [destruct Hin|cbn in L; lia].
+Qed.
+
+Lemma fm_phase2_frx w : forall todo s missing r s',
+  kinv (w_cfg w) (proj s) -> fm_phase2 w s todo missing = (r, s') -> frx (w_cfg w) s s'.
+Proof.
+  induction todo as [|[pos0 [o0 i0]] t IH]; intros s missing r s' K H; cbn [fm_phase2] in H.
+  - inversion H; subst. apply frx_refl.
+  - destruct (fm_refresh_one w s o0 i0) as [r1 s1] eqn:E1.
+    apply fm_refresh_one_spec in E1; [|exact K]. destruct E1 as (F1 & _).
+    pose proof (frx_kinv _ _ _ F1 K) as K1.
+    destruct r1 as [[|]|e].
+    + eapply frx_trans; [exact F1|eapply IH; eauto].
+    + eapply frx_trans; [exact F1|eapply IH; eauto].
+    + inversion H; subst. exact F1.
+Qed.
+
+Lemma enumerate_in {T} (l : list T) : forall n p x, In (p, x) (enumerate n l) -> (n <= p)%nat /\ nth_error l (p - n) = Some x.
+Proof.
+  induction l as [|y t IH]; intros n p x; cbn; [tauto|].
+  intros [E|H].
+  - inversion E; subst. rewrite Nat.sub_diag. split; [lia|reflexivity].
+  - apply IH in H. destruct H as [H1 H2]. split; [lia|].
+    replace (p - n)%nat with (S (p - S n)) by lia. exact H2.
+Qed.
+Lemma enumerate_fun {T} (l : list T) n p x y : In (p, x) (enumerate n l) -> In (p, y) (enumerate n l) -> x = y.
+Proof. intros A B. apply enumerate_in in A, B. destruct A as [_ A], B as [_ B]. congruence. Qed.
+
+Lemma find_missing_spec w s ds m s' :
+  kinv (w_cfg w) (proj s) ->
+  find_missing w s ds = (Ok m, s') ->
+  frx (w_cfg w) s s' /\
+  (forall pos, In pos m ->
+      exists o i sm, In (pos, (o, i)) (enumerate 0 ds) /\ frx (w_cfg w) s sm /\ frx (w_cfg w) sm s' /\
+                     least_specific sm (lookup_keys w o i) = None) /\
+  (forall pos o i, In (pos, (o, i)) (enumerate 0 ds) -> ~ In pos m ->
+      exists sm, frx (w_cfg w) s sm /\ frx (w_cfg w) sm s' /\ fm_present w sm o i /\
+                 ((length ds <= 1)%nat -> sm = s')).
+Proof.
+  intros K H. unfold find_missing in H.
+  set (numbered := enumerate 0 ds) in *.
+  set (f1 := fun '(_, (o, i)) => match least_specific s (lookup_keys w o i) with None => true | Some _ => false end) in H.
+  set (f2 := fun '(_, (o, i)) => match least_specific s (lookup_keys w o i) with
+                                   | Some (_, l) => needs_refresh s l | None => false end) in H.
+  pose proof H as H0.
+  apply fm_phase2_spec in H; [|exact K]. destruct H as (F & IM & A & B).
+  split; [exact F|]. split.
+  - intros pos Hp. destruct (A pos Hp) as [X|(o & i & sm & X1 & X2 & X3 & X4)].
+    + apply in_map_iff in X. destruct X as [[p [o i]] [E X]]. cbn in E; subst p.
+      apply filter_In in X. destruct X as [X1 X2]. cbn in X2.
+      exists o, i, s. split; [exact X1|]. split; [apply frx_refl|]. split; [exact F|].
+      destruct (least_specific s (lookup_keys w o i)); [discriminate|reflexivity].
+    + apply filter_In in X1. destruct X1 as [X1 _]. exists o, i, sm. auto.
+  - intros pos o i Hin Hn.
+    destruct (f2 (pos, (o, i))) eqn:E2.
+    + assert (HT : In (pos, (o, i)) (filter f2 numbered)) by (apply filter_In; auto).
+      destruct (B pos o i HT) as [X|(sm & X1 & X2 & X3 & X4)]; [contradiction|].
+      exists sm. split; [auto|]. split; [auto|]. split; [auto|].
+      intros L. apply X4. 
+      assert (length (filter f2 numbered) <= length numbered)%nat.
+      { clear. induction numbered as [|x t IH]; cbn; [lia|]. destruct (f2 x); cbn; lia. }
+      assert (length numbered = length ds).
+      { clear. unfold numbered. generalize 0%nat. induction ds; intros; cbn; auto. }
+      lia.
+    + cbn in E2. destruct (least_specific s (lookup_keys w o i)) as [[k l]|] eqn:LS.
+      * exists s. split; [apply frx_refl|]. split; [exact F|]. split.
+        -- apply least_specific_some in LS. destruct LS as [KI IG]. apply index_get_in in IG. destruct IG as [IN V].
+           exists (l_abs l). split; [exists k, l; auto|eapply not_old_fresh; eauto].
+        -- intros L. destruct ds as [|d [|d' ds']]; [destruct Hin| |cbn in L; lia].
+           cbn in Hin. destruct Hin as [E|[]]. 
+           unfold numbered in H0. cbn [enumerate filter] in H0. rewrite E in H0.
+           change (f2 (pos, (o, i))) with (match least_specific s (lookup_keys w o i) with
+                                   | Some (_, l) => needs_refresh s l | None => false end) in H0.
+           rewrite LS, E2 in H0. cbn in H0. inversion H0; reflexivity.
+      * exfalso. apply Hn. apply IM. apply in_map_iff. exists (pos, (o, i)). split; [reflexivity|].
+        apply filter_In. split; [exact Hin|]. cbn. rewrite LS. reflexivity.
+Qed.
+
+Lemma find_missing_frx w s ds r s' :
+  kinv (w_cfg w) (proj s) -> find_missing w s ds = (r, s') -> frx (w_cfg w) s s'.
+Proof. intros K H. unfold find_missing in H. eapply fm_phase2_frx; eauto. Qed.
